@@ -1,35 +1,146 @@
-import numpy as np, itertools
-def ref_step(phi, grids, axis, nu, ms, gamma, h, dt, delj_trick=False, beta=None):
-    """Independent flux-form reference. ms: migration rates into pop `axis` from each other pop in axis order (skipping itself)."""
-    phi=np.array(phi,dtype=float); nd=phi.ndim; x=np.asarray(grids[axis],float); L=len(x)
-    dx=np.diff(x); xm=0.5*(x[1:]+x[:-1])
-    w=np.empty(L); w[0]=dx[0]/2; w[-1]=dx[-1]/2; w[1:-1]=(dx[1:]+dx[:-1])/2   # trapezoid weights
-    vf = 1.0 if beta is None else (beta+1)**2/(4*beta)
-    V=lambda z: z*(1-z)/nu*vf
-    others=[k for k in range(nd) if k!=axis]
-    out=np.empty_like(phi)
-    for idx in itertools.product(*[range(phi.shape[k]) for k in others]):
-        oth=[grids[k][i] for k,i in zip(others,idx)]
-        Mf=lambda z: sum(m*(o-z) for m,o in zip(ms,oth)) + gamma*2*(h+(1-2*h)*z)*z*(1-z)
-        Mi=np.array([Mf(z) for z in xm]); Vi=V(xm); Vn=V(x)
-        if delj_trick:
-            d=np.full(L-1,0.5)
-            for j in range(L-1):
-                wj=2*Mi[j]*dx[j]; e=np.exp(wj/Vi[j])
-                if e!=1.0 and wj!=0: d[j]=(-e*wj+e*Vi[j]-Vi[j])/(wj-e*wj)
-        else: d=np.full(L-1,0.5)
-        # flux across interface j+1/2 as linear operator on phi:  F = M*(d*phi_j+(1-d)*phi_{j+1}) - (V_{j+1}phi_{j+1}-V_j phi_j)/(2dx)
-        F=np.zeros((L-1,L))
-        for j in range(L-1):
-            F[j,j]   += Mi[j]*d[j] + Vn[j]/(2*dx[j])
-            F[j,j+1] += Mi[j]*(1-d[j]) - Vn[j+1]/(2*dx[j])
-        A=np.zeros((L,L))
-        for j in range(L):
-            if j<L-1: A[j]+= F[j]/w[j]
-            if j>0:   A[j]-= F[j-1]/w[j]
-        # absorbing boundaries only on corner lines
-        if all(o==0 for o in oth) and Mf(x[0])<=0: A[0,0]+= (0.5/nu - Mf(x[0]))/w[0]
-        if all(o==1 for o in oth) and Mf(x[-1])>=0: A[-1,-1]+= -(-0.5/nu - Mf(x[-1]))/w[-1]
-        sl=list(idx); sl.insert(axis,slice(None)); sl=tuple(sl)
-        out[sl]=np.linalg.solve(np.eye(L)/dt + A, phi[sl]/dt)
+"""O-scheme: independent reference for one implicit step along one axis.
+
+Written from the documented mathematics (conservative flux form on a
+non-uniform grid with trapezoid weights, fully implicit, absorbing
+fixation/loss terms only on the all-0 / all-1 corner lines), solved densely
+with numpy.linalg.solve per line.  Independent of dadi's coefficient
+formulas (a,b,c / dfactor / delj arrays).
+
+  F_{j+1/2} = M_{j+1/2} (d_j phi_j + (1-d_j) phi_{j+1}) - (V_{j+1} phi_{j+1} - V_j phi_j)/(2 Dx_j)
+  (A phi)_j = (F_{j+1/2} - F_{j-1/2}) / w_j            w = trapezoid weights
+  (I/dt + A) phi' = phi/dt
+"""
+import itertools
+
+import numpy as np
+
+
+def delta_cc(xi):
+    """Chang-Cooper delta as a function of xi = w/V, in a form without overflow:
+    delta = 1 + 1/expm1(xi) - 1/xi, -> 1/2 for xi -> 0."""
+    xi = np.asarray(xi, dtype=float)
+    out = np.full(xi.shape, 0.5)
+    small = np.abs(xi) < 1e-5
+    big = ~small
+    with np.errstate(all="ignore"):
+        x = xi[big]
+        out[big] = 1.0 + 1.0 / np.expm1(x) - 1.0 / x
+    out[small] = 0.5 + xi[small] / 12.0
     return out
+
+
+def ref_step(phi, grids, axis, nu, ms, gamma, h, dt, delj_trick=False, beta=None, overflow_delta="limit"):
+    """ms: migration rates into population `axis` from every other population, in axis
+    order (skipping itself).  overflow_delta: what delta to use where exp(w/V) overflows
+    a double ('limit' = the closed-form limit, 'half' = 0.5, the fallback the Python
+    driver documents)."""
+    phi = np.array(phi, dtype=float)
+    nd = phi.ndim
+    x = np.asarray(grids[axis], float)
+    L = len(x)
+    dx = np.diff(x)
+    xm = 0.5 * (x[1:] + x[:-1])
+    w = np.empty(L)
+    w[0] = dx[0] / 2
+    w[-1] = dx[-1] / 2
+    w[1:-1] = (dx[1:] + dx[:-1]) / 2
+    vf = 1.0 if beta is None else (beta + 1) ** 2 / (4 * beta)
+    Vn = x * (1 - x) / nu * vf
+    Vi = xm * (1 - xm) / nu * vf
+    others = [k for k in range(nd) if k != axis]
+    out = np.empty_like(phi)
+    sel = lambda z: gamma * 2 * (h + (1 - 2 * h) * z) * z * (1 - z)
+    for idx in itertools.product(*[range(phi.shape[k]) for k in others]):
+        oth = [grids[k][i] for k, i in zip(others, idx)]
+        Mf = lambda z: sum(m * (o - z) for m, o in zip(ms, oth)) + sel(z)
+        Mi = Mf(xm) if (ms or gamma) else np.zeros(L - 1)
+        Mi = np.asarray(Mi, float) + np.zeros(L - 1)
+        if delj_trick:
+            wj = 2 * Mi * dx
+            with np.errstate(all="ignore"):
+                xi = wj / Vi
+            d = delta_cc(xi)
+            if overflow_delta == "half":
+                # the code falls back to 0.5 wherever its own expression is not finite (exp(xi), or a
+                # product with it, overflows); only the *set of interfaces* is taken from that
+                # expression, the value of delta elsewhere stays the stable closed form
+                with np.errstate(all="ignore"):
+                    e = np.exp(xi)
+                    naive = (-e * wj + e * Vi - Vi) / (wj - e * wj)
+                d = np.where(np.isfinite(naive) | (wj == 0), d, 0.5)
+        else:
+            d = np.full(L - 1, 0.5)
+        A = np.zeros((L, L))
+        for j in range(L - 1):
+            fjj = Mi[j] * d[j] + Vn[j] / (2 * dx[j])
+            fjj1 = Mi[j] * (1 - d[j]) - Vn[j + 1] / (2 * dx[j])
+            A[j, j] += fjj / w[j]
+            A[j, j + 1] += fjj1 / w[j]
+            A[j + 1, j] -= fjj / w[j + 1]
+            A[j + 1, j + 1] -= fjj1 / w[j + 1]
+        M0 = Mf(x[0])
+        M1 = Mf(x[-1])
+        if all(o == 0 for o in oth) and M0 <= 0:
+            A[0, 0] += (0.5 / nu - M0) / w[0]
+        if all(o == 1 for o in oth) and M1 >= 0:
+            A[-1, -1] += (0.5 / nu + M1) / w[-1]
+        sl = list(idx)
+        sl.insert(axis, slice(None))
+        sl = tuple(sl)
+        out[sl] = np.linalg.solve(np.eye(L) / dt + A, phi[sl] / dt)
+    return out
+
+
+def inject_ref(phi, grids, dt, theta0, frozen=None, nomut=None):
+    """Mutation influx: dt*theta0/2 per non-frozen, non-nomut population, deposited
+    in the cell next to the origin along that population's axis; in density units
+    mass / (x_1 * weight of that cell)."""
+    phi = np.array(phi, dtype=float)
+    nd = phi.ndim
+    frozen = frozen or [False] * nd
+    nomut = nomut or [False] * nd
+    for k in range(nd):
+        if frozen[k] or nomut[k]:
+            continue
+        idx = [0] * nd
+        idx[k] = 1
+        g = np.asarray(grids[k], float)
+        wcell = (g[2] - g[0]) / 2
+        for j in range(nd):
+            if j != k:
+                gj = np.asarray(grids[j], float)
+                wcell *= (gj[1] - gj[0]) / 2
+        phi[tuple(idx)] += dt * theta0 / 2 / g[1] / wcell
+    return phi
+
+
+def selfcheck():
+    """Closed-form checks of the reference itself."""
+    # 1. delta limits
+    if abs(delta_cc(np.array([0.0]))[0] - 0.5) > 1e-15:
+        return False
+    if abs(delta_cc(np.array([1e3]))[0] - (1 - 1e-3)) > 1e-12 or abs(delta_cc(np.array([-1e3]))[0] - 1e-3) > 1e-12:
+        return False
+    xi = 0.7
+    e = np.exp(xi)
+    w, V = xi * 2.0, 2.0
+    if abs(delta_cc(np.array([xi]))[0] - (-e * w + e * V - V) / (w - e * w)) > 1e-13:
+        return False
+    # 2. interior lines conserve trapezoid mass exactly; corner lines lose mass
+    rng = np.random.default_rng(7)
+    x = np.sort(np.concatenate([[0, 1], rng.uniform(0, 1, 7)]))
+    y = np.sort(np.concatenate([[0, 1], rng.uniform(0, 1, 7)]))
+    phi = rng.uniform(0.1, 2, (9, 9))
+    out = ref_step(phi, [x, y], 0, 1.7, [0.8], -1.3, 0.3, 0.01)
+    dxw = np.empty(9)
+    d = np.diff(x)
+    dxw[0] = d[0] / 2
+    dxw[-1] = d[-1] / 2
+    dxw[1:-1] = (d[1:] + d[:-1]) / 2
+    m0 = dxw @ phi
+    m1 = dxw @ out
+    if np.max(np.abs(m1[1:-1] - m0[1:-1])) > 1e-12:
+        return False
+    if not (m1[0] < m0[0]):
+        return False
+    return True
